@@ -1071,3 +1071,102 @@ mod tests {
         });
     }
 }
+
+/// Verification hooks (only compiled with `--cfg rten_verif`): run the
+/// vector x block-quantized-matrix kernels with a chosen instruction set.
+#[cfg(rten_verif)]
+pub mod verif {
+    use std::mem::MaybeUninit;
+
+    use rten_simd::{Isa, SimdOp};
+    use rten_tensor::{AsView, Contiguous, NdTensorView};
+
+    use super::{BlockQuantizedMatrix, VecDotMatrix, VecDotMatrixQuant, quantize};
+
+    /// Names accepted by [`vec_dot_matrix_float`].
+    pub const FLOAT_ISAS: [&str; 3] = ["generic", "avx2", "avx512"];
+
+    /// `out = lhs · dequantize(rhs)` using the float kernel ([`ComputeMode::Float`](super::ComputeMode))
+    /// evaluated with the named ISA. Returns false if the ISA is unavailable.
+    pub fn vec_dot_matrix_float(
+        isa: &str,
+        lhs: &[f32],
+        rhs: BlockQuantizedMatrix<f32>,
+        out: &mut [MaybeUninit<f32>],
+    ) -> bool {
+        assert_eq!(lhs.len(), rhs.rows());
+        assert_eq!(out.len(), rhs.cols());
+        let op = VecDotMatrix { lhs, rhs, out };
+        match isa {
+            "generic" => {
+                op.eval(rten_simd::isa::GenericIsa::new());
+                true
+            }
+            #[cfg(target_arch = "x86_64")]
+            "avx2" => {
+                #[target_feature(enable = "avx2")]
+                #[target_feature(enable = "avx")]
+                #[target_feature(enable = "fma")]
+                #[target_feature(enable = "f16c")]
+                unsafe fn run<Op: SimdOp>(isa: impl Isa, op: Op) -> Op::Output {
+                    op.eval(isa)
+                }
+                let Some(isa) = rten_simd::isa::Avx2Isa::new() else {
+                    return false;
+                };
+                // Safety: AVX2 is supported.
+                unsafe { run(isa, op) };
+                true
+            }
+            #[cfg(target_arch = "x86_64")]
+            "avx512" => {
+                #[target_feature(enable = "avx512f")]
+                #[target_feature(enable = "avx512vl")]
+                #[target_feature(enable = "avx512bw")]
+                #[target_feature(enable = "avx512dq")]
+                #[target_feature(enable = "f16c")]
+                unsafe fn run<Op: SimdOp>(isa: impl Isa, op: Op) -> Op::Output {
+                    op.eval(isa)
+                }
+                let Some(isa) = rten_simd::isa::Avx512Isa::new() else {
+                    return false;
+                };
+                // Safety: AVX-512 is supported.
+                unsafe { run(isa, op) };
+                true
+            }
+            _ => false,
+        }
+    }
+
+    /// Blockwise int8 quantization of one LHS row as done for
+    /// [`ComputeMode::Int8`](super::ComputeMode): returns (quantized values, per-block scales).
+    pub fn quantize_row(lhs: &[f32], block_size: usize) -> (Vec<i8>, Vec<f32>) {
+        let view = NdTensorView::from_data([1, 1, lhs.len()], lhs);
+        let (q, s) = quantize(Contiguous::new(view).unwrap(), block_size);
+        (q.into_data(), s.into_data())
+    }
+
+    /// `out = dequantize(quantize(lhs)) · dequantize(rhs)` using the int8 kernel
+    /// evaluated with the named int8 dot product ISA (see `i8dot::verif`).
+    /// Returns false if the ISA is unavailable.
+    pub fn vec_dot_matrix_int8(
+        isa: &str,
+        lhs: &[f32],
+        rhs: BlockQuantizedMatrix<f32>,
+        out: &mut [MaybeUninit<f32>],
+    ) -> bool {
+        assert_eq!(lhs.len(), rhs.rows());
+        assert_eq!(out.len(), rhs.cols());
+        let block = rhs.elements_per_block();
+        let view = NdTensorView::from_data([1, 1, lhs.len()], lhs);
+        let (q, s) = quantize(Contiguous::new(view).unwrap(), block);
+        let op = VecDotMatrixQuant {
+            lhs_data: Contiguous::new(q.slice((0, 0))).unwrap(),
+            lhs_scales: s.slice((0, 0)).data().unwrap(),
+            rhs,
+            out,
+        };
+        crate::i8dot::verif::eval_with(isa, op).is_some()
+    }
+}
